@@ -37,6 +37,8 @@ func checkC16(p *load.Program, r *kit.Report) {
 	checkCompletedGetsThreadResult(p, r, "RESULT-FLOW")
 	r.Rule("COUNT-ALL", "BlockManager.Downloaders(hash) lists every registered downloader of the hash: the only way past a matching downloader is the append", 1)
 	checkDownloadersCountsAll(p, r, "COUNT-ALL")
+	r.Rule("EXIT-ORDER", "when BlockManager.Run ends, Stop (cancel every downloader) runs before shutdown (wait for the downloader list to empty)", 1)
+	checkStopBeforeShutdown(p, r, "EXIT-ORDER")
 	r.NotDecided = "interleavings proper (who wins which select), goroutine leaks inside the dependency's thread objects, retry timing; that HandleBlock is activated at most once per downloader is an assumption recorded from the node side (completeBlock clears the handler)."
 	r.Rule("CHAN-BUDGET", "Started/Complete have capacity ≥ 2; HandleBlock sends Started first and exactly one Complete on every return; Cancel and Stop send at most one of each, only on the edge where isCancelled was false, and that test and the store isCancelled=true are one stateLock critical section ⇒ at most 2 sends per channel, no sender can block", 8)
 	r.Rule("BLOCKING-OP", "every select in BlockDownloader.Run and cancelAndWaitForComplete has a timer arm; the wait loop is bounded", 3)
